@@ -187,11 +187,46 @@ def run_stage(stage, tier, seed, extra_args=()):
         pass
     h = _H()
     h.stdout, h.returncode = out, rc
-    d = subprocess.run([DRIVER], input=h.stdout, capture_output=True, text=True, env=e)
-    verdicts = d.stdout.splitlines()
-    info["driver_rc"] = d.returncode
-    info["driver_err"] = d.stderr[-2000:]
+    verdicts, drc, derr = run_driver_parallel(recs, e)
+    info["driver_rc"] = drc
+    info["driver_err"] = derr[-2000:]
     return info, recs, verdicts
+
+
+def run_driver_parallel(recs, e):
+    """The driver answers one line per record and keeps no state between records, so a long
+    stream is cut into consecutive chunks judged by several driver processes at once; the
+    verdicts are concatenated in the original order."""
+    n = len(recs)
+    k = max(1, min(os.cpu_count() or 4, 16, n // 2000))
+    if k == 1:
+        d = subprocess.run([DRIVER], input="\n".join(recs) + ("\n" if recs else ""), capture_output=True, text=True, env=e)
+        return d.stdout.splitlines(), d.returncode, d.stderr
+    size = (n + k - 1) // k
+    chunks = [recs[i:i + size] for i in range(0, n, size)]
+    procs = []
+    for ch in chunks:
+        pr = subprocess.Popen([DRIVER], stdin=subprocess.PIPE, stdout=subprocess.PIPE, stderr=subprocess.PIPE, text=True, env=e)
+        procs.append((pr, ch))
+    import threading
+    outs = [None] * len(procs)
+
+    def feed(i, pr, ch):
+        outs[i] = pr.communicate("\n".join(ch) + "\n")
+
+    ths = [threading.Thread(target=feed, args=(i, pr, ch)) for i, (pr, ch) in enumerate(procs)]
+    for t in ths:
+        t.start()
+    for t in ths:
+        t.join()
+    verdicts, rc, err = [], 0, ""
+    for (pr, ch), (so, se) in zip(procs, outs):
+        lines = so.splitlines()
+        verdicts.extend(lines)
+        if pr.returncode != 0 or len(lines) != len(ch):
+            rc = pr.returncode or 1
+        err += se or ""
+    return verdicts, rc, err
 
 
 def run_driver_on(lines):
